@@ -172,7 +172,11 @@ impl BmWorld {
         match kv.op {
             "b.clone" => {
                 let d = kv.n("d");
-                let c = self.bms[&id].clone();
+                // `how=from`: `dst.clone_from(&src)` into an existing bitmap (whatever its size was) instead of `src.clone()`
+                let c = match (kv.s("how"), if d != id { self.bms.remove(&d) } else { None }) {
+                    ("from", Some(mut dst)) => { dst.clone_from(&self.bms[&id]); dst }
+                    _ => self.bms[&id].clone(),
+                };
                 let out = format!("ok len={} bs={} w={}", c.len(), c.byte_size(), words(&bm_words(&c)));
                 let s = self.sets[&id].clone();
                 self.bms.insert(d, c);
@@ -316,9 +320,16 @@ pub fn run(rec: &mut Rec, rng: &mut Rng, n_random: usize, full_exhaustive: bool)
             } else if r < 67 {
                 format!("b.reset id={}", id)
             } else if r < 72 {
-                let d = live.len() as u64;
-                live.push(d);
-                format!("b.clone id={} d={}", id, d)
+                if live.len() > 1 && rng.chance(1, 3) {
+                    // overwrite another live bitmap of this case (it may be larger or smaller: enlarged clones)
+                    let d = *rng.pick(&live);
+                    if d == id { continue; }
+                    format!("b.clone id={} d={} how=from", id, d)
+                } else {
+                    let d = live.len() as u64;
+                    live.push(d);
+                    format!("b.clone id={} d={}", id, d)
+                }
             } else if r < 79 {
                 // either small, or overflowing `byte_size + add` (never a huge non-overflowing size: that is an allocation abort, not modelled)
                 let add = if rng.chance(1, 12) && bs > 2 { (u64::MAX - bs + 1) + rng.below(3) } else { rng.below(3 * page as u64 + 70) };
